@@ -91,6 +91,7 @@ type RunConfig struct {
 	Workers  int
 	Verbose  bool
 	DumpObl  string
+	Known    []KnownFinding // listed findings: their obligations get one attempt (the verdict does not matter)
 }
 
 type FuncReport struct {
@@ -131,7 +132,16 @@ func discharge(fvs []*FuncVC, cfg RunConfig) {
 				if j.o.Probe {
 					tmo = 3 // a vacuity probe that is not answered quickly is inconclusive, not an alarm
 				}
-				res, err := solve(q, tmo, cfg.All && !j.o.Probe, !usesZ3Only(q))
+				isKnown := !j.o.Probe && matchKnown(cfg.Known, cfg.Prop, j.o.Name) != nil
+				if isKnown && tmo > 10 {
+					tmo = 10 // a listed finding is reported as KNOWN-FINDING whether the solver answers sat or gives up
+				}
+				res, err := solve(q, tmo, cfg.All && !j.o.Probe && !isKnown, !usesZ3Only(q))
+				if isKnown && res.Verdict == VUnknown {
+					j.o.Res = res
+					j.o.Status = "unknown"
+					continue
+				}
 				if res.Verdict == VUnknown && !j.o.Probe {
 					// one retry with a larger budget
 					res, err = solve(q, cfg.TimeoutS*3, cfg.All, !usesZ3Only(q))
